@@ -188,7 +188,7 @@ CHECKS = [
           " Also: calls issued after the connection goroutine ended (closer, loss on a no-reconnect client) must fail, not block. Fourth round: a silent stall while a 48 MiB request is being written (proxy fault `stall`: silent and no longer reading; F34).",
   "design_ref": "DESIGN.md §6 C03",
   "note": TB + " PARTIAL: 'every call returns' = ownership + enabledness + scheduler fairness; observed with the clock-free oracle (a later probe round-tripped).",
-  "technique": "Lean 4 theorems + translation theorems over the regenerated MiniGo programs (Sweep) (ownership invariant by induction over events) + regenerated skeleton facts + hook-trace inclusion + gated schedules"},
+  "technique": "Lean 4 theorems + translation theorems over the regenerated MiniGo programs (Sweep, CtxErr) (ownership invariant by induction over events) + regenerated skeleton facts + hook-trace inclusion + gated schedules"},
  {"property_id": "C04",
   "text": "Theorems: under every event list at most one request frame is written per attempt and its handler runs at most once; whenever "
           "the executor holds a genuine response for an attempt, that attempt was executed exactly once; a notification is never registered, "
@@ -252,7 +252,7 @@ CHECKS = [
           "previous connection returns while the same id is pending on the new one), its serving-side trace replayed through op epoch (F18). Fourth round: a reverse subscription after a loss during which the old producer emitted (F20), a shared non-default formatter without aliases (F28), a client without handlers (F35), a large reverse request still queued when its connection ended (F18b).",
   "design_ref": "DESIGN.md §6 C16",
   "note": TB,
-  "technique": "Lean 4 theorems + translation theorems over the regenerated MiniGo programs (Naming, NextWriter) (frame/projection lemma over a product of LTSs, corollaries of the Corr invariants) + regenerated skeleton facts + hook-trace inclusion per endpoint + scenario monitors"},
+  "technique": "Lean 4 theorems + translation theorems over the regenerated MiniGo programs (Naming, NextWriter, CtxErr) (frame/projection lemma over a product of LTSs, corollaries of the Corr invariants) + regenerated skeleton facts + hook-trace inclusion per endpoint + scenario monitors"},
  {"property_id": "C17",
   "text": "Theorems over a timed model of the two detectors of one connection (read deadline, main-loop idle timer) for every timeout T, "
           "activity gap G and local latency E and every interleaving of activity / renewal / re-arm / local traffic / time: if G + E < T then on "
